@@ -34,7 +34,9 @@ class C09(ParamsProp):
     def corpus(self):
         return [dict(c) for c in CLAUSES] + super().corpus()
 
-    def cases(self, tier, seed):
+    families = {"both_flags": 200, "wide_mapping": 25}
+
+    def base_cases(self, tier, seed):
         N = 1500 if tier == "quick" else 40000
         for i in range(N):
             r = Rng(seed, "C09", i)
